@@ -40,3 +40,66 @@ package api
 // data update of a remote feature's replicated function data (details: C02)
 //@ iface api.FeatureRemoteInterface.UpdateData
 //@   modifies world
+
+// ---------------------------------------------------------------------------------------
+// Response log (C01, C03): for every sender s (api.SenderInterface value), the replies and results sent
+// through it so far, by value:
+//   rn[s]                      number of responses
+//   rcls/rref/rdst[s][k]       classifier, msgCounterReference pointer, destination address pointer
+//   rsdev/rsent/rsfeat[s][k]   device / entity / feature part of the source address
+//   rerr[s][k]                 error number of a result (0 = success); rcmd[s][k] payload command of a reply
+// outmisc: all other outbound traffic (requests, notifications), opaque.
+//@ ghost rn map[any]int
+//@ ghost rcls map[any]map[int]model.CmdClassifierType
+//@ ghost rref map[any]map[int]*model.MsgCounterType
+//@ ghost rdst map[any]map[int]*model.FeatureAddressType
+//@ ghost rsdev map[any]map[int]*model.AddressDeviceType
+//@ ghost rsent map[any]map[int][]model.AddressEntityType
+//@ ghost rsfeat map[any]map[int]*model.AddressFeatureType
+//@ ghost rerr map[any]map[int]model.ErrorNumberType
+//@ ghost rcmd map[any]map[int]model.CmdType
+//@ ghost outmisc int
+//@ modset RESP = rn, rcls, rref, rdst, rsdev, rsent, rsfeat, rerr, rcmd
+//@ define respSame = rn == old(rn) && rcls == old(rcls) && rref == old(rref) && rdst == old(rdst) && rsdev == old(rsdev) && rsent == old(rsent) && rsfeat == old(rsfeat) && rerr == old(rerr) && rcmd == old(rcmd)
+//@ define app1(M, s, K) = M == store(old(M), s, store(old(M)[s], K, M[s][K]))
+//@ define respAppended(s, K) = rn == store(old(rn), s, K + 1) && app1(rcls, s, K) && app1(rref, s, K) && app1(rdst, s, K) && app1(rsdev, s, K) && app1(rsent, s, K) && app1(rsfeat, s, K) && app1(rerr, s, K) && app1(rcmd, s, K)
+//@ define answers(s, K, RH, SA) = rref[s][K] == old(RH.MsgCounter) && rdst[s][K] == old(RH.AddressSource) && rsdev[s][K] == old(SA.Device) && rsent[s][K] == old(RH.AddressDestination.Entity) && rsfeat[s][K] == old(RH.AddressDestination.Feature)
+
+//@ iface api.SenderInterface.ResultError
+//@   requires requestHeader != nil && requestHeader.AddressDestination != nil && senderAddress != nil && err != nil
+//@   let K = rn[self]
+//@   ensures result == nil ==> respAppended(self, K) && rcls[self][K] == model.CmdClassifierTypeResult && answers(self, K, requestHeader, senderAddress) && rerr[self][K] == old(err.ErrorNumber)
+//@   ensures result != nil ==> respSame
+//@   modifies @RESP, outmisc
+
+//@ iface api.SenderInterface.ResultSuccess
+//@   requires requestHeader != nil && requestHeader.AddressDestination != nil && senderAddress != nil
+//@   let K = rn[self]
+//@   ensures result == nil ==> respAppended(self, K) && rcls[self][K] == model.CmdClassifierTypeResult && answers(self, K, requestHeader, senderAddress) && rerr[self][K] == model.ErrorNumberTypeNoError
+//@   ensures result != nil ==> respSame
+//@   modifies @RESP, outmisc
+
+//@ iface api.SenderInterface.Reply
+//@   requires requestHeader != nil && requestHeader.AddressDestination != nil && senderAddress != nil
+//@   let K = rn[self]
+//@   ensures result == nil ==> respAppended(self, K) && rcls[self][K] == model.CmdClassifierTypeReply && answers(self, K, requestHeader, senderAddress) && rcmd[self][K] == cmd
+//@   ensures result != nil ==> respSame
+//@   modifies @RESP, outmisc
+
+// requests and notifications are not responses
+//@ iface api.SenderInterface.Request
+//@   modifies outmisc
+//@ iface api.SenderInterface.Notify
+//@   modifies outmisc
+//@ iface api.SenderInterface.Write
+//@   modifies outmisc
+//@ iface api.SenderInterface.Subscribe
+//@   modifies outmisc
+//@ iface api.SenderInterface.Bind
+//@   modifies outmisc
+
+//@ iface api.BindingManagerInterface.HasLocalFeatureRemoteBinding pure
+//@ iface api.OperationsInterface.Write pure const
+//@ iface api.OperationsInterface.Read pure const
+//@ iface api.FeatureLocalInterface.RequestRemoteData
+//@   modifies outmisc, held
